@@ -14,6 +14,15 @@ def main():
     common.repo_on_path()
     ctx = common.Ctx(a.prop, a.tier, seed)
     os.chdir(ctx.tmp)            # scratch cwd: ANSI.DoLog appends to ./log
+    # last resort against a run that never ends (code under test stuck in a system call inside this process): give up with exit 2 - a timeout
+    # is not a verdict.  The stages that start children or sessions have their own, much shorter watchdogs, which do report.
+    import threading
+    limit = float(os.environ.get('VERIF_CHECK_LIMIT', 3600 if a.tier == 'quick' else 6 * 3600))
+
+    def give_up():
+        sys.stdout.write('check timed out after %d s (no verdict)\n' % limit); sys.stdout.flush()
+        os._exit(2)
+    wd = threading.Timer(limit, give_up); wd.daemon = True; wd.start()
     try:
         mod = importlib.import_module('props.%s' % a.prop.lower())
         if a.replay:
